@@ -6,7 +6,7 @@
  * It executes a scenario file, one operation per line:
  *   I <name>                                   interface (numbered 0, 1, ... in order)
  *   M <name> <signature> <ntypes> <t>...       message; one type per argument: interface number or -1 (NULL)
- *   C <kind> <conn> <thread> <msg> <sender> <iface> <nargs> <arg>...   a closure
+ *   C <kind> <conn>[/<owner>] <thread> <msg> <sender> <iface> <nargs> <arg>...   a closure
  *        kind 0 client receives (dispatch_event -> wl_closure_invoke)
  *             1 server receives (wl_client_connection_data -> wl_closure_invoke)
  *             2 server receives (wl_client_connection_data -> wl_closure_dispatch)
@@ -73,7 +73,7 @@ static struct wl_connection conns[8];
 static struct wl_display displays[8];
 static struct wl_client clients[8];
 
-struct op { int kind, conn, thread, line; struct wl_closure *closure; struct wl_object *target; struct wl_resource *res; };
+struct op { int kind, conn, owner, thread, line; struct wl_closure *closure; struct wl_object *target; struct wl_resource *res; };
 
 static char *unhex(const char *h) {
   size_t n = strlen(h) / 2; char *s = malloc(n + 1);
@@ -88,9 +88,9 @@ static struct wl_object *mkobj(const char *spec) {
 static void *run_op(void *p) {
   struct op *o = p;
   switch (o->kind) {
-  case 0: { struct wl_event_queue q; dispatch_event(&displays[o->conn], &q, o->closure, o->target); break; }
-  case 1: wl_client_connection_data(0, 0, &clients[o->conn], o->closure, &o->res->object, 0); break;
-  case 2: wl_client_connection_data(0, 0, &clients[o->conn], o->closure, &o->res->object, 1); break;
+  case 0: { struct wl_event_queue q; dispatch_event(&displays[o->owner], &q, o->closure, o->target); break; }
+  case 1: wl_client_connection_data(0, 0, &clients[o->owner], o->closure, &o->res->object, 0); break;
+  case 2: wl_client_connection_data(0, 0, &clients[o->owner], o->closure, &o->res->object, 1); break;
   case 3: wl_closure_send(o->closure, &conns[o->conn]); break;
   case 4: wl_closure_queue(o->closure, &conns[o->conn]); break;
   case 9: wl_connection_destroy(&conns[o->conn]); break;
@@ -122,7 +122,12 @@ int main(int argc, char **argv) {
     } else if (tok[0] == 'C') {
       struct op o; memset(&o, 0, sizeof o);
       o.line = lineno;
-      o.kind = atoi(strtok(NULL, " \n")); o.conn = atoi(strtok(NULL, " \n")); o.thread = atoi(strtok(NULL, " \n"));
+      o.kind = atoi(strtok(NULL, " \n"));
+      /* <conn> or <conn>/<owner>: the wl_display / wl_client struct through which a received closure reaches its connection
+         lives in its own slot - an owner's address can be re-used while its wl_connection is a different one */
+      { char *ct = strtok(NULL, " \n"); o.conn = atoi(ct); char *sl = strchr(ct, '/'); o.owner = sl ? atoi(sl + 1) : o.conn; }
+      displays[o.owner].connection = &conns[o.conn]; clients[o.owner].connection = &conns[o.conn];
+      o.thread = atoi(strtok(NULL, " \n"));
       struct wl_message *m = &msgs[atoi(strtok(NULL, " \n"))];
       struct wl_closure *c = calloc(1, sizeof *c);
       c->message = m; c->sender_id = (uint32_t)strtoul(strtok(NULL, " \n"), NULL, 10);
@@ -155,7 +160,7 @@ int main(int argc, char **argv) {
       }
       o.closure = c;
       struct wl_resource *res = calloc(1, sizeof *res);
-      res->object.interface = &ifaces[tif]; res->object.id = c->sender_id; res->client = &clients[o.conn];
+      res->object.interface = &ifaces[tif]; res->object.id = c->sender_id; res->client = &clients[o.owner];
       o.res = res; o.target = &res->object;
       mock_marker(lineno);
       if (o.thread > 0) { pthread_t t; pthread_create(&t, NULL, run_op, &o); pthread_join(t, NULL); } else run_op(&o);
